@@ -119,16 +119,69 @@ class _NeverLock(CoopLock):
         pass
 
 
+_REAL_LOCK_TYPES = (type(_real_threading.Lock()), type(_real_threading.RLock()))
+_REAL_OWNERS: dict[int, list] = {}     # id(real lock) -> [actor, count, lock]: real locks met by a twin are made cooperative too
+
+
+class _HeldReal:
+    """a real threading lock already acquired (non-blocking) by the twin's acquire loop"""
+
+    def __init__(self, lock):
+        self.lock = lock
+
+    def __enter__(self):
+        return True
+
+    def __exit__(self, *a):
+        ent = _REAL_OWNERS.get(id(self.lock))
+        if ent is not None:
+            ent[1] -= 1
+            if ent[1] <= 0:
+                _REAL_OWNERS.pop(id(self.lock), None)
+        try:
+            self.lock.release()
+        except RuntimeError:
+            pass
+
+
 def _coop_try_enter(cm) -> bool:
     if isinstance(cm, CoopLock):
         return cm.try_acquire()
+    if isinstance(cm, _REAL_LOCK_TYPES):
+        # a lock created outside the stand-in (e.g. at import time): all actors share one OS thread, so ownership is tracked
+        # per actor here; a lock held by another (preempted) actor is a cooperative blocking point, never a real wait
+        ent = _REAL_OWNERS.get(id(cm))
+        me = CURRENT[0]
+        if ent is None:
+            if not cm.acquire(blocking=False):
+                return False
+            _REAL_OWNERS[id(cm)] = [me, 1, cm]
+            return True
+        if ent[0] is me and isinstance(cm, _REAL_LOCK_TYPES[1]):
+            cm.acquire(blocking=False)
+            ent[1] += 1
+            return True
+        return False
     return True
 
 
 def _coop_entered(cm):
     if isinstance(cm, CoopLock):
         return _Held(cm)
+    if isinstance(cm, _REAL_LOCK_TYPES):
+        return _HeldReal(cm)
     return cm
+
+
+def release_real_locks() -> None:
+    """release real locks still held by actors that never finished (crashed / abandoned generators)"""
+    for ent in list(_REAL_OWNERS.values()):
+        for _ in range(max(1, ent[1])):
+            try:
+                ent[2].release()
+            except RuntimeError:
+                break
+    _REAL_OWNERS.clear()
 
 
 def _coop_call(obj, name, *a, **k):
@@ -582,6 +635,7 @@ def run_schedule(actors: list[Actor], first, slices: list, crash: tuple | None =
     Returns {'deadlock': bool, 'schedule': [...]}"""
     def n():
         return len(actors)
+    release_real_locks()
     cur = 0
     for i in range(n()):  # first may be symbolic: decide it by comparisons
         if not sym_lt(i, first):
@@ -689,3 +743,41 @@ def run_schedule(actors: list[Actor], first, slices: list, crash: tuple | None =
             stuck_rounds = 0
     CURRENT[0] = None
     return {"deadlock": False, "schedule": log}
+
+
+class CoopFuture:
+    """concurrent.futures.Future stand-in: waiting for the result is a cooperative blocking point inside a twin"""
+
+    def __init__(self):
+        self._done = False
+        self._res = None
+        self._exc = None
+
+    def set_result(self, r):
+        self._res, self._done = r, True
+
+    def set_exception(self, e):
+        self._exc, self._done = e, True
+
+    def done(self):
+        return self._done
+
+    def _get(self):
+        if self._exc is not None:
+            raise self._exc
+        return self._res
+
+    def result(self, timeout=None):
+        if not self._done:
+            raise HarnessLimit("Future.result() would block outside a cooperative twin")
+        return self._get()
+
+    def result__gen(self, timeout=None):
+        while not self._done:
+            yield ("B", "future")
+        return self._get()
+
+    def exception(self, timeout=None):
+        if not self._done:
+            raise HarnessLimit("Future.exception() would block outside a cooperative twin")
+        return self._exc
